@@ -81,3 +81,55 @@ Proof.
     - apply Forall_app. split; auto. constructor; auto. apply (recalc_step cur (fst x) (snd x) Hc). }
   apply G; auto.
 Qed.
+
+(* ---------- the arithmetic regenerated from the source is the arithmetic of the model ---------- *)
+Lemma rc_generated_known :
+  forallb aknown [gen_rc_cap; gen_rc_floor; gen_rc_target_nonzero; gen_rc_target_zero; gen_rc_round] = true.
+Proof. reflexivity. Qed.
+
+Lemma qmin_comp a a' b b' : a == a' -> b == b' -> qmin a b == qmin a' b'.
+Proof.
+  intros Ha Hb. unfold qmin. destruct (Qle_bool a b) eqn:E, (Qle_bool a' b') eqn:E'; auto.
+  - apply Qle_bool_iff in E. assert (H : ~ a' <= b') by (intros H; apply Qle_bool_iff in H; congruence). rewrite <- Ha, <- Hb in H. contradiction.
+  - apply Qle_bool_iff in E'. assert (H : ~ a <= b) by (intros H; apply Qle_bool_iff in H; congruence). rewrite Ha, Hb in H. contradiction.
+Qed.
+Lemma qmax_comp a a' b b' : a == a' -> b == b' -> qmax a b == qmax a' b'.
+Proof.
+  intros Ha Hb. unfold qmax. destruct (Qle_bool a b) eqn:E, (Qle_bool a' b') eqn:E'; auto.
+  - apply Qle_bool_iff in E. assert (H : ~ a' <= b') by (intros H; apply Qle_bool_iff in H; congruence). rewrite <- Ha, <- Hb in H. contradiction.
+  - apply Qle_bool_iff in E'. assert (H : ~ a <= b) by (intros H; apply Qle_bool_iff in H; congruence). rewrite Ha, Hb in H. contradiction.
+Qed.
+
+Theorem rc_generated_arithmetic current trt avg :
+  let cap := aeval (renv current trt avg 0 0 0) gen_rc_cap in
+  let floor := aeval (renv current trt avg 0 0 0) gen_rc_floor in
+  cap == cap_of current /\ floor == floor_of current /\
+  aeval (renv current trt avg cap floor 0) gen_rc_target_zero == cap_of current /\
+  aeval (renv current trt avg cap floor 0) gen_rc_target_nonzero ==
+    qmax (floor_of current) (qmin (cap_of current) (inject_Z current * trt / avg)) /\
+  (forall target, aeval (renv current trt avg cap floor target) gen_rc_round = inject_Z (round_half_up target)).
+Proof.
+  cbv zeta.
+  assert (Hc : aeval (renv current trt avg 0 0 0) gen_rc_cap == cap_of current).
+  { cbn. unfold cap_of, rc_min_step_up, rc_rel_up, rc_cap. apply qmin_comp; [|reflexivity].
+    apply Qplus_comp; [reflexivity|]. apply qmax_comp; reflexivity. }
+  assert (Hf : aeval (renv current trt avg 0 0 0) gen_rc_floor == floor_of current).
+  { cbn. unfold floor_of, rc_floor, rc_rel_down. apply qmax_comp; [reflexivity|]. apply qmin_comp; [|reflexivity].
+    apply Qmult_comp; reflexivity. }
+  split; [exact Hc|]. split; [exact Hf|]. split; [exact Hc|]. split.
+  - cbn [aeval gen_rc_target_nonzero renv]. apply qmax_comp; [exact Hf|]. apply qmin_comp; [exact Hc|reflexivity].
+  - intros target. reflexivity.
+Qed.
+
+(* hence the model's new limit is what the generated expressions compute *)
+Theorem new_limit_uses_generated current trt avg :
+  let cap := aeval (renv current trt avg 0 0 0) gen_rc_cap in
+  let floor := aeval (renv current trt avg 0 0 0) gen_rc_floor in
+  let target := if Qeq_bool avg 0 then aeval (renv current trt avg cap floor 0) gen_rc_target_zero
+                else aeval (renv current trt avg cap floor 0) gen_rc_target_nonzero in
+  inject_Z (new_limit current trt avg) = aeval (renv current trt avg cap floor (clamp current trt avg)) gen_rc_round /\
+  target == clamp current trt avg.
+Proof.
+  cbv zeta. destruct (rc_generated_arithmetic current trt avg) as (Hc & Hf & Hz & Hn & Hr). cbv zeta in *.
+  split; [symmetry; apply Hr|]. unfold clamp. destruct (Qeq_bool avg 0); [exact Hz|exact Hn].
+Qed.
